@@ -12921,6 +12921,10 @@ class Prefix(SequenceBase):
         end_match_list = []
         decl_spec_list = []
         keyword_list = []
+        # No blank is needed between the closing parenthesis of a
+        # declaration-type-spec and a following keyword ('real(8)pure').
+        line, repmap = string_replace_map(string)
+        string = repmap(re.sub(r"\)(?=\w)", ") ", line))
         split = string.split()
         # Match prefix-spec (apart from declaration-type-spec) from
         # the left end of the string. These can be tokenised with a
